@@ -52,6 +52,11 @@ pub const SESSIONS: &[(&str, &str)] = &[
     ("known_index_effects", "c := mut 0\nbump := () -> int { c += 1; return *c }\ni := *c\nv := [bump(), bump()][i]\nn := *c\n(v, n)\nj := 1\nw := [bump(), bump(), bump()][j]\n(w, *c)\nt := (bump(), bump()).0\n(t, *c)\ns := struct{a := bump(), b := bump()}.a\n(s, *c)"),
     ("known_constant_loops", "g := (n: int) -> bool { return n > 3 }\nc := g(1)\nd := g(5)\nx := mut 0\nwhile c { x += 1; break }\n*x\nwhile d { x += 10; break }\n*x\nr := c || d\nr2 := d && c\n(r, r2)\nif c { x += 100 } else { x += 1000 }\n*x\ny := if d { 1 } else { 2 }\n(y, *x)"),
     ("filter_helper_names", "default := 7\niterator := 5\nf := [1, 2.0, 3]~ ? int\ndefault\nf()\n(default, iterator)\ng := [\"a\", 1]~ ? string\nrest := g $]\n(default, iterator, rest)"),
+    // what an iterator's body declares stays in the iterator (collect and reduce call it like any function)
+    ("iterator_body_locals", "val := 1\nacc := 100\ni := mut 0\ngen := () -> (bool, int) { val := *i * 10; i += 1; return (*i < 4, val) }\nr := gen $]\nval\n(val, r)\ni = 0\ntotal := gen $0 (acc: int, e: int) -> int { return acc + e }\n(val, acc, total)\nlast := () -> (bool, int) { acc := 5; e := 6; return (false, acc + e) }\nn := last $0 (a: int, b: int) -> int { return a + b }\n(acc, n)"),
+    // a known, unrepaired finding (known_findings.json KF1): sessions named kf_* are never renamed,
+    // so that the minimised statement list identifies the finding exactly
+    ("kf_cell_of_wide_value", "pick := () -> int|float { return 1 }\nx := pick()\nm := mut x\nif c: mut int = m { 1 } else { 2 }"),
     ("own_name_param", "f := (f: int, g: int) -> int { return f + g }\nf(1, 2)\ng := (x: int) -> int { g := x + 1; return g }\ng(1)\ng(2)"),
 ];
 
@@ -868,7 +873,7 @@ pub fn gen(seed: u64, boot_seed: u64, run: u64, pool: &[(String, Vec<String>)]) 
     if statements.len() > 15 {
         statements.truncate(15);
     }
-    if rng.chance(1, 3) {
+    if rng.chance(1, 3) && !name.starts_with("kf_") {
         statements = rename_idents(&statements, &mut rng);
         name.push_str("+renamed");
     }
@@ -904,6 +909,7 @@ pub fn worker(input: &Value) -> Value {
     crate::boot::boot(boot_seed);
     crate::run::FUEL_BUDGET.store(20_000, std::sync::atomic::Ordering::Relaxed);
     let pool = session_pool();
+    let mut seen_violations: std::collections::BTreeSet<(String, String)> = Default::default();
     let mut violations = Vec::new();
     let mut harness_errors = Vec::new();
     let mut n = 0u64;
@@ -955,7 +961,9 @@ pub fn worker(input: &Value) -> Value {
             }
         }
         if let Some((class, detail)) = &rep.violation {
-            if violations.len() < 8 {
+            // one candidate per (session, class): a defect that fails one session over and over
+            // must not use up the slots of a different one
+            if violations.len() < 12 && seen_violations.insert((sc.name.clone(), class.clone())) {
                 violations.push(json!({"class": class, "detail": detail, "subject_id": sc.name, "scenario": sc.to_json(), "log": rep.log}));
             }
         }
